@@ -294,7 +294,7 @@ def handle (d : DSt) (line : String) : DSt × String :=
             let next := if it.kind == .svc then (if it.inFn then "reentered" else if it.done then "done" else "timeout") else "-"
             let exec := if it.kind == .task then toString it.executing else "-"
             ({ d2 with ids := setHeld d2.ids i it.inFn },
-             s!"finish ret={ret} http={http} next={next} exec={exec} reps={repsStr reps} last={lastStr s'.last} cnt={cntStr s'}")
+             s!"finish ret={ret} http={http} next={next} exec={exec} sync=ok reps={repsStr reps} last={lastStr s'.last} cnt={cntStr s'}")
         | _, _ => (d, "bad-op")
     else if op == "burst" then burst d [name]
     else (d, "bad-op")
@@ -325,7 +325,7 @@ def handle (d : DSt) (line : String) : DSt × String :=
     -- reports of the subject's own stop are already in the feed
     let d2 := pushReports { d1 with mods := starts.mods } (sreps ++ starts.reps)
     let (d3, reps) := drain d2
-    (d3, s!"manage ret={ctrlRetStr (manageResult srets starts.rets)} reps={repsStr reps} st={statusesStr d3.mods}")
+    (d3, s!"manage ret={ctrlRetStr (manageResult srets starts.rets)} reps={sortedRepsStr reps} st={statusesStr d3.mods}")
   | ["shutdown"] =>
     if !d.started then (d, "bad-op") else
     -- work that does not wait for the module context would keep Shutdown waiting for the stop timeout
